@@ -43,7 +43,7 @@ def gen_case(rng, tier):
     else:
         sites = [rng.choice(ALL) for _ in range(rng.randint(2, 3))]
     return {"kind": kind, "sites": sites, "cond": rng.random() < 0.4, "theta": [round(rng.uniform(-0.8, 0.8), 3), round(rng.uniform(-0.8, 0.8), 3)],
-            "ret": rng.choice(["poly", "sin", "prod"]), "nodes": 10 if tier == "quick" else 20, "max_leaves": 3000 if tier == "quick" else 40000,
+            "ret": rng.choice(["poly", "sin", "prod"]), "nodes": 8 if tier == "quick" else 20, "max_leaves": 1000 if tier == "quick" else 40000,
             "real_cfg": rng.choice(["seed", "jit", "mvmap"]), "key": rng.randint(0, 2**30)}
 
 
@@ -157,7 +157,7 @@ def gl(n):
     return (x + 1.0) / 2.0, w / 2.0
 
 
-def ref_expectation(case, theta, n=24):
+def ref_expectation(case, theta, n=16):
     """E[f] by exact summation over discrete supports and quadrature over continuous sites."""
     t1 = np.float64(theta[1])
 
